@@ -150,6 +150,24 @@ func (w *Workspace) RunFastDir(dir string, imp gotypes.Importer) (res *Result) {
 	return res
 }
 
+// RunFastOver generates prev, then replaces prev's sources by s's in the same
+// directory (the generated files of the first run stay) and generates again:
+// what a user gets who edits the specification and re-runs lox.
+func (w *Workspace) RunFastOver(prev, s *Spec, imp gotypes.Importer) (first, second *Result) {
+	dir := w.dirFor()
+	writeSpec(dir, prev)
+	first = w.RunFastDir(dir, imp)
+	for n := range prev.Lox {
+		os.Remove(filepath.Join(dir, n))
+	}
+	for n := range prev.Go {
+		os.Remove(filepath.Join(dir, n))
+	}
+	writeSpec(dir, s)
+	second = w.RunFastDir(dir, imp)
+	return first, second
+}
+
 // normDiag makes diagnostics independent of the scratch directory's name.
 func normDiag(d, dir string) string {
 	if rel, err := filepath.Rel(mustGetwd(), dir); err == nil {
